@@ -2,9 +2,11 @@ package mach
 
 import (
 	"fmt"
+	"strings"
 
 	"pgregory.net/rapid"
 
+	"verif/internal/bed"
 	"verif/internal/imapc"
 )
 
@@ -163,6 +165,99 @@ func (w *World) Actions(rec *Rec, h Hooks) map[string]func(*rapid.T) {
 			box := w.PickBox(t)
 			d, m := w.ConnCreate(t, box)
 			rec.Op("conn create %s in %s err=%v", m, box, d.Err)
+		},
+		// One message in two mailboxes, \Deleted on the copy another session looks at, then a flag change through the
+		// first mailbox (\Deleted is per mailbox, every other flag is shared): a sequence the independent actions
+		// reach only rarely.
+		"crossBoxFlags": func(t *rapid.T) {
+			if len(w.Boxes) < 2 {
+				t.Skip("one mailbox only")
+			}
+
+			var watchers []*Sess
+
+			for _, s := range w.FreeSelected(false) {
+				if s.Passive || len(w.Actors()) > 1 {
+					watchers = append(watchers, s)
+				}
+			}
+
+			p := w.PickSess(t, watchers)
+
+			var actors []*Sess
+
+			for _, s := range w.Actors() {
+				if s != p {
+					actors = append(actors, s)
+				}
+			}
+
+			a := w.PickSess(t, actors)
+			y := p.Selected
+
+			var others []string
+
+			for _, b := range w.Boxes {
+				if !strings.EqualFold(b, y) {
+					others = append(others, b)
+				}
+			}
+
+			x := pick(t, "xbox", others)
+
+			do := func(s *Sess, kind, cmd string) *imapc.Result {
+				r := s.Do(cmd)
+				rec.Op("%s %s -> %s", s.Name, r.Cmd, r.Status)
+				on(t, s, kind, r)
+
+				return r
+			}
+
+			sel := func(box string) bool {
+				w.SteerSelect(a)
+
+				r := a.Select(box, false)
+				rec.Op("%s %s -> %s", a.Name, r.Cmd, r.Status)
+				on(t, a, "select", r)
+
+				return r.OK()
+			}
+
+			w.Label("op:crossBoxFlags")
+
+			if !sel(x) {
+				return
+			}
+
+			if len(a.Mirror.Msgs) == 0 {
+				r, m := w.Append(t, a, x)
+				rec.Op("%s append %s %s -> %s", a.Name, x, m, r.Status)
+				on(t, a, "append", r)
+
+				if !r.OK() || len(a.Mirror.Msgs) == 0 {
+					return
+				}
+			}
+
+			n := rapid.IntRange(1, len(a.Mirror.Msgs)).Draw(t, "n")
+
+			if r := do(a, "copy", fmt.Sprintf("COPY %d %s", n, bed.Quote(y))); !r.OK() {
+				return
+			}
+
+			if !sel(y) || len(a.Mirror.Msgs) == 0 {
+				return
+			}
+
+			if r := do(a, "store", `STORE * +FLAGS (\Deleted)`); !r.OK() {
+				return
+			}
+
+			if !sel(x) || len(a.Mirror.Msgs) < n {
+				return
+			}
+
+			do(a, "store", fmt.Sprintf("STORE %d %s (%s)", n, pick(t, "op", []string{"+FLAGS", "-FLAGS", "FLAGS"}), pick(t, "flag", []string{`\Flagged`, `\Seen`, `\Answered`, "kw1"})))
 		},
 		"connCreateDelete": func(t *rapid.T) {
 			box := w.PickBox(t)
